@@ -110,6 +110,38 @@ int main()
       cvm::rmatrix R = rot.matrix();
       o << "ok " << H(R.xx) << " " << H(R.xy) << " " << H(R.xz) << " " << H(R.yx) << " " << H(R.yy) << " " << H(R.yz)
         << " " << H(R.zx) << " " << H(R.zy) << " " << H(R.zz) << " " << H(rot.spin_angle(ax)) << " " << H(rot.cos_theta(ax)) << "\n";
+    } else if (cmd == "SORTMAP" || cmd == "LOADXYZ") {
+      // SORTMAP <natoms> <n> <atom numbers in listing order>     -> sorted ids (0-based) | sorted_atoms_ids_map
+      // LOADXYZ <natoms> <n> <atom numbers> | <file>            -> positions attached to the atoms, in listing order
+      int natoms = ni(); int n = ni();
+      if (!S.proxy || S.eng.natoms != natoms) { S.eng.resize(natoms); S.fresh(); }
+      std::string numbers;
+      for (int i = 0; i < n; i++) numbers += a[p++] + " ";
+      cvm::clear_error();
+      cvm::atom_group *ag = new cvm::atom_group("c02group");
+      ag->add_atom_numbers(numbers);
+      if (cmd == "SORTMAP") {
+        ag->create_sorted_ids();
+        o << "ok";
+        for (size_t i = 0; i < ag->sorted_ids().size(); i++) o << " " << ag->sorted_ids()[i];
+        o << " |";
+        for (size_t i = 0; i < ag->sorted_ids_map().size(); i++) o << " " << ag->sorted_ids_map()[i];
+        o << "\n";
+      } else {
+        std::string file = conf;
+        file.erase(0, file.find_first_not_of(" "));
+        file.erase(file.find_last_not_of(" \n") + 1);
+        std::vector<cvm::atom_pos> pos(ag->size());
+        int err = cvm::load_coords(file.c_str(), &pos, ag, std::string(""), 0.0);
+        if (err != COLVARS_OK || cvm::get_error()) { o << "err " << vs_errclass(err | cvm::get_error()) << "\n"; }
+        else {
+          o << "ok";
+          for (size_t i = 0; i < pos.size(); i++) o << " " << H(pos[i].x) << " " << H(pos[i].y) << " " << H(pos[i].z);
+          o << "\n";
+        }
+      }
+      delete ag;
+      cvm::clear_error();
     } else if (cmd == "PD") {
       if (!S.proxy) S.fresh();
       S.eng.has_cell = ni() != 0;
